@@ -55,6 +55,10 @@ def gen_cases(tier, seed, gen, effort):
         n = rnd.randint(maxlen + 1, 24)
         pool = ALPHA if rnd.random() < 0.5 else ["a", "b", "c", "1", " ", "/", "ä", "€", "Ā", "￿"]
         payloads.append("".join(rnd.choice(pool) for _ in range(n)))
+    # long payloads: around the line lengths at which MIME-style encoders wrap (57 / 76 bytes) and well beyond
+    for n in [27, 28, 29, 30, 56, 57, 58, 59, 75, 76, 77, 114, 115, 200, 513][: None if thorough else 12]:
+        pool = ["a", "b", "/", " ", "1", "ä"] if n % 2 else ["x", "y", ".", "-"]
+        payloads.append("".join(rnd.choice(pool) for _ in range(n)))
     cases = []
     for pl in payloads:
         for ch in OFFSET_CHAINS:
